@@ -96,6 +96,7 @@ namespace igris
             uint16_t size;
             igris::deserialize(keeper, size);
 
+            vec.clear();
             for (int i = 0; i < size; i++)
             {
                 T value;
@@ -124,6 +125,7 @@ namespace igris
             uint16_t size;
             igris::deserialize(keeper, size);
 
+            map.clear();
             for (int i = 0; i < size; i++)
             {
                 // typename std::map<K,T>::value_type pair;
